@@ -13,6 +13,9 @@ pub struct Rev {
     /// per version: (method, signature text). Signature text spells out argument types AT THAT VERSION.
     pub view: fn(u32) -> Vec<(&'static str, &'static str)>,
     pub verify: fn(&str) -> Result<(), SavefileError>,
+    /// write the ledger files of this revision the way an EARLIER RELEASE of the library wrote them (data version 1,
+    /// which has no receiver-type and no async field)
+    pub legacy: fn(&str) -> Result<(), SavefileError>,
     /// how this revision differs from its predecessor in the chain (documentation for evidence / replays)
     pub edit: &'static str,
 }
@@ -379,6 +382,77 @@ pub mod plain_r1_variant_appended {
         fn kind(&self, k: Kind) -> u8;
         fn sub(&self, x: u32, y: u32) -> u32;
     }
+}
+
+pub mod plain_b_canary {
+    // BREAKING sibling of r1: the second argument of `add` becomes savefile::Canary1 (a library type whose schema
+    // presents itself under the primitive name "u32")
+    use savefile_derive::{savefile_abi_exportable, Savefile};
+    #[derive(Savefile)]
+    pub struct Point {
+        pub x: u32,
+        #[savefile_versions = "1.."]
+        pub y: u32,
+    }
+    #[derive(Savefile)]
+    pub enum Kind {
+        A,
+        B,
+    }
+    #[savefile_abi_exportable(version = 1)]
+    pub trait Ledger {
+        fn add(&self, x: u32, y: savefile::Canary1) -> u32;
+        fn name(&self) -> String;
+        fn put(&self, p: Point) -> u32;
+        fn kind(&self, k: Kind) -> u8;
+        fn sub(&self, x: u32, y: u32) -> u32;
+    }
+}
+// ------------------------------------------------------------------------------------------------
+// chain "recv": trait RLedger - methods with &self and &mut self receivers (the receiver type is one of the
+// things the current ledger format records and the earlier one could not)
+// ------------------------------------------------------------------------------------------------
+pub mod recv_r0 {
+    use savefile_derive::savefile_abi_exportable;
+    #[savefile_abi_exportable(version = 0)]
+    pub trait RLedger {
+        fn get(&self) -> u32;
+        fn inc(&mut self, by: u32) -> u32;
+        fn reset(&mut self);
+    }
+}
+pub mod recv_r1 {
+    use savefile_derive::savefile_abi_exportable;
+    #[savefile_abi_exportable(version = 1)]
+    pub trait RLedger {
+        fn get(&self) -> u32;
+        fn inc(&mut self, by: u32) -> u32;
+        fn reset(&mut self);
+        fn dec(&mut self, by: u32) -> u32;
+    }
+}
+pub mod recv_b_argtype {
+    use savefile_derive::savefile_abi_exportable;
+    #[savefile_abi_exportable(version = 0)]
+    pub trait RLedger {
+        fn get(&self) -> u32;
+        fn inc(&mut self, by: u64) -> u32;
+        fn reset(&mut self);
+    }
+}
+fn recv_view_r0(_v: u32) -> Vec<(&'static str, &'static str)> {
+    vec![("get", "()->u32"), ("inc", "(u32)->u32"), ("reset", "()->()")]
+}
+fn recv_view_r1(v: u32) -> Vec<(&'static str, &'static str)> {
+    let mut m = recv_view_r0(v);
+    m.push(("dec", "(u32)->u32"));
+    m
+}
+fn recv_view_b_argtype(_v: u32) -> Vec<(&'static str, &'static str)> {
+    vec![("get", "()->u32"), ("inc", "(u64)->u32"), ("reset", "()->()")]
+}
+fn plain_view_b_canary(v: u32) -> Vec<(&'static str, &'static str)> {
+    plain_view_r1(v).into_iter().map(|m| if m.0 == "add" { ("add", "(u32,Canary1)->u32") } else { m }).collect()
 }
 
 fn plain_view_r0(_v: u32) -> Vec<(&'static str, &'static str)> {
@@ -1056,8 +1130,16 @@ fn futs_view_b_send_unpin_only(_v: u32) -> Vec<(&'static str, &'static str)> {
 
 macro_rules! rev {
     ($chain:expr, $name:expr, $latest:expr, $view:expr, $t:ty, $edit:expr) => {
-        Rev { chain: $chain, name: $name, latest: $latest, view: $view, verify: |p| verify_compatiblity::<$t>(p), edit: $edit }
+        Rev { chain: $chain, name: $name, latest: $latest, view: $view, verify: |p| verify_compatiblity::<$t>(p), legacy: |p| write_legacy::<$t>(p), edit: $edit }
     };
+}
+pub fn write_legacy<T: savefile_abi::AbiExportable + ?Sized>(dir: &str) -> Result<(), SavefileError> {
+    for v in 0..=T::get_latest_version() {
+        let def = T::get_definition(v);
+        let f = std::path::Path::new(dir).join(format!("savefile_{}_{}.schema", def.name, v));
+        savefile::save_file_noschema(&f, 1, &def)?;
+    }
+    Ok(())
 }
 pub fn revisions() -> Vec<Rev> {
     vec![
@@ -1076,6 +1158,10 @@ pub fn revisions() -> Vec<Rev> {
         rev!("plain", "plain_b_swapped_names", 1, plain_view_b_swapped_names, dyn plain_b_swapped_names::Ledger, "BREAKING: methods `name` and `put` swap names (count and positions unchanged)"),
         rev!("plain", "plain_b_variant_inserted", 1, plain_view_b_variant_inserted, dyn plain_b_variant_inserted::Ledger, "BREAKING: versioned enum variant inserted before an existing variant (wire tag of Kind::B moves)"),
         rev!("plain", "plain_r1_variant_appended", 1, plain_view_r1_variant_appended, dyn plain_r1_variant_appended::Ledger, "compatible: versioned enum variant appended"),
+        rev!("plain", "plain_b_canary", 1, plain_view_b_canary, dyn plain_b_canary::Ledger, "BREAKING: argument type u32 replaced by savefile::Canary1"),
+        rev!("recv", "recv_r0", 0, recv_view_r0, dyn recv_r0::RLedger, "initial revision with &self and &mut self methods"),
+        rev!("recv", "recv_r1", 1, recv_view_r1, dyn recv_r1::RLedger, "compatible: new &mut self method"),
+        rev!("recv", "recv_b_argtype", 0, recv_view_b_argtype, dyn recv_b_argtype::RLedger, "BREAKING: argument type of a &mut self method changed"),
         rev!("async", "async_r0", 0, async_view_r0, dyn async_r0::ALedger, "initial revision (async_trait)"),
         rev!("async", "async_r1", 1, async_view_r1, dyn async_r1::ALedger, "compatible: new async method"),
         rev!("async", "async_b_sync", 0, async_view_b_sync, dyn async_b_sync::ALedger, "BREAKING: `get` no longer async"),
